@@ -3,7 +3,11 @@
 Correspondence, end to end: strings from a generator biased to XML-special characters, white
 space, astral characters and long lengths are stored in every storage form the Coq encoders know
 (xlsx: shared / inline / formula string; plain / rich runs at arbitrary cuts / phonetic data;
-ods: text:p per line, text:s with any c, spans, annotations, office:string-value).  The extracted
+ods: text:p per line, text:s with any c, spans, annotations, office:string-value), with the
+characters of every text position (<t> plain / in runs / in phonetic runs, <v>, <f>, text:p,
+text:span) spelt as text, as CDATA sections (alone, mixed with text, adjacent sections — the way
+"]]>" is embedded — and empty ones) or both.  The formula text (<f>) is read back through
+worksheet_formula as well.  The extracted
 Coq encoder (vm `xmltext xlsx|ods`) produces the event lists, the model's answer (M), the
 specification's answer (S) and the known class; tools/textgen.py serialises the events to XML
 (entity / character-reference spelling drawn per character), zips them, and the real readers
@@ -22,7 +26,7 @@ ASSUMPTIONS = [
 ]
 
 TMP = os.path.join(vlib.CACHE, "tmp", "c19")
-KNOWN_IDS = ("F12", "F34", "F35", "F36", "F37")
+KNOWN_IDS = ("F35", "F36", "F37")
 
 # ------------------------------------------------------------------ strings
 SPECIAL = ["&", "<", ">", '"', "'", "&amp;", "&#65;", "]]>", "<![CDATA[", "<!--", "-->", "<?", "&lt;"]
@@ -85,21 +89,63 @@ def cuts(rng, s, maxparts=5):
     return parts
 
 # ------------------------------------------------------------------ xlsx forms (wire for vm)
-def tc_wire(rng, s, cdata=False):
-    """character content holding s: text chunks separated by comments, optionally CDATA"""
-    if s == "" and rng.random() < 0.7:
-        return ""
-    parts = cuts(rng, s, 3) if rng.random() < 0.4 else [s]
-    out = []
-    for i, p in enumerate(parts):
-        if cdata and "]]>" not in p and rng.random() < 0.6:
-            out.append("c" + hx(p))
+def cdata_segments(p):
+    """p as a list of (kind, text): CDATA sections wherever legal.  "]]>" is split between two
+    adjacent sections ("…]]" + ">…"); a CR stays character data (a literal CR inside a CDATA
+    section would be subject to line-end normalisation, which quick-xml does not do)"""
+    out, cur, i = [], [], 0
+    def flush():
+        if cur:
+            out.append(("c", "".join(cur))); cur.clear()
+    while i < len(p):
+        if p[i] == "\r":
+            flush(); out.append(("t", "\r"))
+        elif p.startswith("]]>", i):
+            cur.append("]]"); flush(); cur.append(">"); i += 2
         else:
-            if out and out[-1].startswith("t"):
-                out.append("o")               # a comment keeps adjacent text chunks apart
-            out.append("t" + hx(p))
+            cur.append(p[i])
+        i += 1
+    flush()
+    return out
+
+def tc_wire(rng, s, cdata=False):
+    """character content holding s: text chunks separated by comments; with `cdata` also CDATA
+    sections: the whole content, text + CDATA + text, several adjacent sections, empty sections"""
+    if s == "" and rng.random() < 0.7:
+        return "c" if cdata and rng.random() < 0.3 else ""          # <t/> or <t><![CDATA[]]></t>
+    mode = rng.choice(["all", "all", "mid", "adjacent", "random"]) if cdata else "text"
+    if mode == "all":
+        parts = [s]
+    elif mode == "mid":
+        parts = cuts(rng, s, 3)
+        while len(parts) < 3:
+            parts.append("")
+    elif mode == "adjacent":
+        parts = cuts(rng, s, 4)
+    else:
+        parts = cuts(rng, s, 3) if rng.random() < 0.4 else [s]
+    segs = []
+    for i, p in enumerate(parts):
+        as_cdata = (mode in ("all", "adjacent") or (mode == "mid" and i == 1)
+                    or (mode == "random" and rng.random() < 0.6))
+        if as_cdata:
+            segs += cdata_segments(p) if p else ([("c", "")] if rng.random() < 0.3 else [])
+        else:
+            segs.append(("t", p))
+    if len(s) > 2000 and len(segs) > 24:
+        # long text: keep the chunk count moderate (the model appends chunk by chunk); CDATA
+        # for the head only
+        head = cdata_segments(s[:200])[:12]
+        done = sum(len(p) for _, p in head)
+        segs = head + [("t", s[done:])]
+    out = []
+    for k, p in segs:
+        if k == "t" and out and out[-1].startswith("t"):
+            out.append("o")                   # a comment keeps adjacent text chunks apart
+        out.append(k + hx(p))
     if rng.random() < 0.1:
         out.insert(rng.randrange(0, len(out) + 1), "o")
+        # a comment never lands between two text chunks that were one: it only adds a boundary
     return "+".join(out)
 
 RPR = [("b", []), ("i", []), ("u", []), ("sz", [("val", "11")]), ("color", [("rgb", "FFFF0000")]),
@@ -112,32 +158,34 @@ def rpr_wire(rng):
     ch = [rng.choice(RPR) for _ in range(rng.randrange(1, 4))]
     return ",".join(hx(n) + "".join(":%s=%s" % (hx(k), hx(v)) for k, v in a) for n, a in ch)
 
-def phon_wire(rng):
+def phon_wire(rng, cdata=False):
     if rng.random() < 0.3:
         return "Q"
-    return "P;" + tc_wire(rng, gen_string(rng, maxlen=4))
+    return "P;" + tc_wire(rng, gen_string(rng, maxlen=4), cdata)
 
 def form_wire(rng, s, rich_ok=True, cdata=False):
     """a storage form of s as the children of <si>/<is>"""
     r = rng.random()
     if not rich_ok or r < 0.45:
-        after = "!".join(phon_wire(rng) for _ in range(rng.choice([0, 0, 0, 1, 2, 3])))
+        after = "!".join(phon_wire(rng, cdata) for _ in range(rng.choice([0, 0, 0, 1, 2, 3])))
         return "plain/%d/%s/%s" % (rng.random() < 0.5, tc_wire(rng, s, cdata), after)
     if s == "" and r < 0.55:
         return "rich/"                                      # <si/>
     pieces = []
     for p in cuts(rng, s, 5):
         while rng.random() < 0.2:
-            pieces.append(phon_wire(rng))
+            pieces.append(phon_wire(rng, cdata))
         pieces.append("R;%d;%s;%s" % (rng.random() < 0.5, rpr_wire(rng), tc_wire(rng, p, cdata)))
     while rng.random() < 0.3:
-        pieces.append(phon_wire(rng))
+        pieces.append(phon_wire(rng, cdata))
     return "rich/" + "!".join(pieces)
+
+FORMULAS = ['"a"&"b"', "A1&B1", "1<2", "T(\"x\")", 'IF(A1<B1,"]]>","&amp;")', "A1 &  B1\n+1", ""]
 
 def gen_xlsx_case(rng, big=False):
     pfx = rng.choice(["", "", "", "", "", "", "x", "x", "main"])
-    cdata = rng.random() < 0.10
-    rich_ok = (pfx == "") or rng.random() < 0.12          # prefixed + rich = class F34
+    cdata = rng.random() < 0.45
+    rich_ok = True                                          # rich items under a prefix: legal since 7dba6c7
     n_items = rng.choice([0, 1, 2, 3, 5, 8, 12])
     strings = [gen_string(rng) for _ in range(n_items)]
     if big and n_items:
@@ -163,7 +211,7 @@ def gen_xlsx_case(rng, big=False):
             cells.append("i" + form_wire(rng, s, rich_ok, cdata))
         else:
             s = gen_string(rng)
-            cells.append("f" + tc_wire(rng, rng.choice(['"a"&"b"', "A1&B1", "1<2", "T(\"x\")"])) + "&" + tc_wire(rng, s, cdata))
+            cells.append("f" + tc_wire(rng, rng.choice(FORMULAS), cdata) + "&" + tc_wire(rng, s, cdata))
     return pfx, items, cells
 
 def xlsx_vm_line(cid, case):
@@ -185,9 +233,34 @@ def para_wire(rng, line, flags):
     lit = []
     # long lines get the same kinds of pieces but fewer of them (the model appends piece by piece)
     f = min(1.0, 150.0 / max(1, len(line)))
+    pc = flags.get("cdata", 0.0)           # probability that a literal run is written as CDATA
     def flush():
         if lit:
-            out.append("l" + hx("".join(lit))); lit.clear()
+            text = "".join(lit); lit.clear()
+            if pc and rng.random() < pc:
+                # CDATA only, text + CDATA + text, or adjacent sections
+                parts = [text] if rng.random() < 0.5 else cuts(rng, text, 3)
+                mid = len(parts) == 3 and rng.random() < 0.5
+                segs = []
+                for i, p in enumerate(parts):
+                    segs += [("t", p)] if (mid and i != 1) else cdata_segments(p)
+                if len(text) > 2000 and len(segs) > 24:
+                    # long text: keep the piece count moderate, CDATA for the head only
+                    head = cdata_segments(text[:200])[:12]
+                    segs = head + [("t", text[sum(len(q) for _, q in head):])]
+                for k, q in segs:
+                    if k == "t":
+                        if out and out[-1].startswith("l"):
+                            out.append("O")
+                        out.append("l" + hx(q))
+                    else:
+                        out.append("d" + hx(q))
+                if rng.random() < 0.1:
+                    out.append("d")                                # an empty section
+            else:
+                if out and out[-1].startswith("l"):
+                    out.append("O")
+                out.append("l" + hx(text))
     while i < n:
         ch = line[i]
         if ch == " ":
@@ -219,8 +292,8 @@ def para_wire(rng, line, flags):
             flush(); out.append("B")
         else:
             lit.append(ch)
-            if flags.get("cdata") and rng.random() < 0.15 * f and "]]>" not in "".join(lit[-3:]) and "]]>" not in "".join(lit):
-                out.append("d" + hx("".join(lit))); lit.clear()
+            if pc and rng.random() < 0.10 * f:
+                flush()
         if rng.random() < 0.08 * f:
             flush(); out.append("o" + hx(rng.choice(["T1", "T2", "a&b"]))); depth += 1
         elif depth and rng.random() < 0.15:
@@ -262,14 +335,15 @@ EXTRA = [("table:style-name", "ce1"), ("calcext:value-type", "string"), ("table:
          ("table:content-validation-name", "v<1>")]
 
 def gen_ods_case(rng, big=False):
-    flags = {"tab": rng.random() < 0.10, "break": rng.random() < 0.06, "cdata": rng.random() < 0.08}
+    flags = {"tab": rng.random() < 0.10, "break": rng.random() < 0.06,
+             "cdata": rng.choice([0.0, 0.0, 0.0, 0.3, 0.7, 1.0])}
     cells = []
     for _ in range(rng.randrange(1, 9)):
         s = gen_string(rng) if not (big and rng.random() < 0.3) else long_string(rng, rng.choice([32767, 5000]))
         extra = ",".join("%s=%s" % (hx(k), hx(v)) for k, v in rng.sample(EXTRA, rng.randrange(0, 3)))
         cn = "c" if rng.random() < 0.08 else "a"
         if rng.random() < 0.15:
-            disp = content_wire(rng, gen_string(rng, maxlen=4), {})
+            disp = content_wire(rng, gen_string(rng, maxlen=4), {"cdata": flags["cdata"]})
             disp = "!".join(x for x in disp.split("!") if not x.startswith("n"))    # display copy: paragraphs only
             st = "a" + hx(s) + "/" + disp
         else:
@@ -335,6 +409,68 @@ def expected_sheet(model):
     c0, c1 = min(p[1] for p in g), max(p[1] for p in g)
     return "R[%d,%d,%d,%d|%s]" % (r0, c0, r1, c1, "/".join(
         ",".join(g.get((r, c), "E") for c in range(c0, c1 + 1)) for r in range(r0, r1 + 1)))
+
+def expected_formulas(fmodel):
+    """what `open xlsx path formula` prints when the code behaves like read_sheet_formulas
+    (worksheet_formula = Range::from_sparse of the cells whose formula text is not empty);
+    None when a shared formula is involved (outside this model)"""
+    if fmodel in ("err", "fuel"):
+        return "err:other"
+    if fmodel == "panic":
+        return "panic"
+    g = {}
+    for pair in fmodel.split("/"):
+        if not pair:
+            continue
+        r, v = pair.split("=")
+        if v == "X":
+            return None
+        if v.startswith("T") and len(v) > 1:
+            g[parse_ref(unhx(r))] = v[1:]
+    if not g:
+        return "R[-]"
+    r0, r1 = min(p[0] for p in g), max(p[0] for p in g)
+    c0, c1 = min(p[1] for p in g), max(p[1] for p in g)
+    return "R[%d,%d,%d,%d|%s]" % (r0, c0, r1, c1, "/".join(
+        ",".join(g.get((r, c), "") for c in range(c0, c1 + 1)) for r in range(r0, r1 + 1)))
+
+def split_calls(ans):
+    """answer of `open … range S;formula S` -> (range answer, formula answer or None)"""
+    if ans is None or ans.startswith("openerr") or ans in ("nofile",):
+        return ans, None
+    parts = ans.split(";;")
+    return parts[0], (parts[1] if len(parts) > 1 else None)
+
+def check_formulas(ctx, cid, caseline, fans, fmodel, fspec, legal, path):
+    """i vs m and i vs s for the formula text; returns True when the file must be kept"""
+    if fans is None:
+        return False
+    keep = False
+    exp = expected_formulas(fmodel)
+    if exp is not None and fans != exp:
+        ctx.disagreements.append({"function": "xlsx-formula", "case": caseline, "impl": fans, "model": fmodel,
+                                  "expected_from_model": exp, "file": path})
+        keep = True
+    if fspec is None:
+        return keep
+    g = {} if fans == "R[-]" else parse_grid(fans)
+    if g is None:
+        g = {}
+        if exp == fans:
+            return keep                      # the call failed as the model predicts (range part decides)
+    legals = legal.split("/")
+    for j, sp in enumerate(fspec.split("/")):
+        if legals[j] != "1":
+            continue
+        want = sp[1:] if sp.startswith("T") else ""
+        got = g.get((j, 0), "")
+        ctx.count("xlsx:formula-text" if want else "xlsx:no-formula")
+        if got != want:
+            ctx.violations.append({"case": caseline, "expected": "T" + want, "actual": "T" + got, "model": fmodel,
+                                   "what": "xlsx cell %d: formula text %r read back as %r" % (
+                                       j, decode_s("S" + want), decode_s("S" + got)), "file": path})
+            keep = True
+    return keep
 
 def expected_impl(model, fmt):
     """what `open <fmt> path range` prints when the code behaves like the model"""
@@ -418,10 +554,10 @@ def run_xlsx_batch(ctx, cases, tag):
     for cid, c, line in zip(ids, cases, vm_lines):
         a = enc.get(cid, "")
         f = a.split("#")
-        if len(f) != 6:
+        if len(f) != 7:
             ctx.disagreements.append({"function": "xlsx-encoder", "case": line, "impl": None, "model": a})
             continue
-        sstw, cellsw, model, spec, known, legal = f
+        sstw, cellsw, model, spec, known, legal, fspec = f
         cells = []
         for cw in cellsw.split("|"):
             aw, ew = cw.split("@")
@@ -430,14 +566,21 @@ def run_xlsx_batch(ctx, cases, tag):
         body = sheet_body_events(c[0], cells)
         data = xlsx_bytes(c[0], unwire(sstw), cells, ctx.rng, body=body)
         path = write_file(cid + ".xlsx", data)
-        vh_lines.append("%s\topen\txlsx\t%s\trange %s" % (cid, path, hx("S")))
+        vh_lines.append("%s\topen\txlsx\t%s\trange %s;formula %s" % (cid, path, hx("S"), hx("S")))
         sheet_lines.append("%s\txmltext\truns\t%s\t%s" % (cid, sstw, wire(body)))
-        meta[cid] = (line, model, spec, known, legal, path)
+        sheet_lines.append("%sf\txmltext\trunf\t%s" % (cid, wire(body)))
+        meta[cid] = (line, model, spec, known, legal, path, fspec)
+        ncd = sum(1 for e in unwire(sstw) + body if e[0] == "C")
+        if ncd:
+            ctx.count("xlsx:file-with-cdata")
+            ctx.count("xlsx:cdata-sections", ncd)
     impl = ctx.run_impl(vh_lines)
     sheet = ctx.run_model(sheet_lines)          # M over exactly the events that were serialised
-    for cid, (line, model, spec, known, legal, path) in meta.items():
-        keep = classify(ctx, cid, "xlsx", line, impl.get(cid), model, spec, known, legal, path,
+    for cid, (line, model, spec, known, legal, path, fspec) in meta.items():
+        rans, fans = split_calls(impl.get(cid))
+        keep = classify(ctx, cid, "xlsx", line, rans, model, spec, known, legal, path,
                         sheet_model=sheet.get(cid, "?"))
+        keep = check_formulas(ctx, cid, line, fans, sheet.get(cid + "f", "?"), fspec, legal, path) or keep
         ctx.traces += 1
         ctx.nontrivial(line.split("\t", 2)[2])
         ctx.count("xlsx:file")
@@ -445,7 +588,7 @@ def run_xlsx_batch(ctx, cases, tag):
             ctx.count("xlsx:store:" + {"s": "shared", "i": "inline", "f": "formula"}[cw[0]])
         ctx.count("xlsx:prefix" if line.split("\t")[3] != "-" else "xlsx:default-ns")
         if len(ctx.samples) < 3:
-            ctx.sample({"case": line[:300], "impl": (impl.get(cid) or "")[:200], "impl_equals_model": impl.get(cid) == expected_sheet(sheet.get(cid, "?"))})
+            ctx.sample({"case": line[:300], "impl": (impl.get(cid) or "")[:200], "impl_equals_model": rans == expected_sheet(sheet.get(cid, "?"))})
         if not keep:
             try:
                 os.remove(path)
@@ -472,6 +615,10 @@ def run_ods_batch(ctx, cases, tag):
         path = write_file(cid + ".ods", ods_bytes(cells, ctx.rng))
         vh_lines.append("%s\topen\tods\t%s\trange %s" % (cid, path, hx("S")))
         meta[cid] = (line, model, spec, known, legal, path)
+        ncd = sum(1 for _, _, ev in cells for e in ev if e[0] == "C")
+        if ncd:
+            ctx.count("ods:file-with-cdata")
+            ctx.count("ods:cdata-sections", ncd)
     impl = ctx.run_impl(vh_lines)
     for cid, (line, model, spec, known, legal, path) in meta.items():
         keep = classify(ctx, cid, "ods", line, impl.get(cid), model, spec, known, legal, path)
@@ -552,26 +699,31 @@ def raw_xlsx_cases(rng, n):
     return cases
 
 def run_raw_xlsx(ctx, cases, tag):
-    vm_lines, vh_lines, paths = [], [], {}
+    vm_lines, vh_lines, f_lines, paths = [], [], [], {}
     for i, (sst, cells) in enumerate(cases):
         cid = "%s%d" % (tag, i)
         body = sheet_body_events("", cells)
         vm_lines.append("%s\txmltext\truns\t%s\t%s" % (cid, wire(sst), wire(body)))
+        f_lines.append("%sf\txmltext\trunf\t%s" % (cid, wire(body)))
         path = write_file(cid + ".xlsx", xlsx_bytes("", sst, cells, ctx.rng, body=body))
         paths[cid] = path
-        vh_lines.append("%s\topen\txlsx\t%s\trange %s" % (cid, path, hx("S")))
-    model = ctx.run_model(vm_lines)
+        vh_lines.append("%s\topen\txlsx\t%s\trange %s;formula %s" % (cid, path, hx("S"), hx("S")))
+    model = ctx.run_model(vm_lines + f_lines)
     impl = ctx.run_impl(vh_lines)
     for line in vm_lines:
         cid = line.split("\t", 1)[0]
         exp = expected_sheet(model.get(cid, "?"))
+        rans, fans = split_calls(impl.get(cid))
         ctx.traces += 1
         ctx.count("xlsx:raw")
         ctx.nontrivial(line.split("\t", 2)[2])
-        if impl.get(cid) != exp:
-            ctx.disagreements.append({"function": "xlsx-raw", "case": line, "impl": impl.get(cid),
+        keep = False
+        if rans != exp:
+            ctx.disagreements.append({"function": "xlsx-raw", "case": line, "impl": rans,
                                       "model": model.get(cid), "expected_from_model": exp, "file": paths[cid]})
-        else:
+            keep = True
+        keep = check_formulas(ctx, cid, line, fans, model.get(cid + "f", "?"), None, "", paths[cid]) or keep
+        if not keep:
             os.remove(paths[cid])
 
 def raw_ods_cases(rng, n):
@@ -738,28 +890,45 @@ def run_binary(ctx, n, tag):
 
 # ------------------------------------------------------------------ corpus: witnesses and regressions, run first
 def corpus(ctx):
-    # xlsx: the known-class witnesses (F12 shared + formula, F34 shared / inline / empty item),
-    # the repaired F11 (<si/> keeps its index), special characters in every form
+    # xlsx: regression witnesses of the repaired classes F12 (CDATA: shared, inline, runs, phonetic
+    # runs, <v>, <f>, text + CDATA + text, adjacent sections around "]]>", empty sections, under
+    # a prefix) and F34 (prefixed rich / empty items: shared, inline, <x:si/>, <x:is/>), the
+    # repaired F11 (<si/> keeps its index), special characters in every form, class F37
     cases = [
-        ("", [hx("") + "~plain/0/c" + hx("a<b") + "/"], ["s" + hx("0")]),                                  # F12
-        ("", [], ["f" + "t" + hx("1") + "&t" + hx("u") + "+c" + hx("v") + "+t" + hx("w")]),                  # F12 formula
-        ("x", [hx("") + "~rich/R;0;;t" + hx("a"), hx("") + "~plain/0/t" + hx("c") + "/"], ["s" + hx("1")]),   # F34 shared
-        ("x", [hx("") + "~plain/0/t" + hx("c") + "/"], ["irich/R;0;;t" + hx("a") + "!R;0;;t" + hx("b"), "s" + hx("0")]),   # F34 inline
-        ("x", [hx("") + "~rich/", hx("") + "~plain/0/t" + hx("c") + "/"], ["s" + hx("1")]),                    # F34 on <x:si/>
+        ("", [hx("") + "~plain/0/c" + hx("a<b") + "/"], ["s" + hx("0")]),                                  # was F12
+        ("", [], ["f" + "t" + hx("1") + "&t" + hx("u") + "+c" + hx("v") + "+t" + hx("w")]),                  # was F12 formula
+        ("x", [hx("") + "~rich/R;0;;t" + hx("a"), hx("") + "~plain/0/t" + hx("c") + "/"], ["s" + hx("1"), "s" + hx("0")]),   # was F34 shared
+        ("x", [hx("") + "~plain/0/t" + hx("c") + "/"], ["irich/R;0;;t" + hx("a") + "!R;0;;t" + hx("b"), "s" + hx("0")]),   # was F34 inline
+        ("x", [hx("") + "~rich/", hx("") + "~plain/0/t" + hx("c") + "/"], ["s" + hx("1"), "s" + hx("0")]),       # was F34 on <x:si/>
         ("", [hx("") + "~rich/", hx("") + "~plain/0/t" + hx("a") + "/", hx("") + "~rich/", hx("") + "~plain/1/t" + hx(" b ") + "/"],
          ["s" + hx("0"), "s" + hx("1"), "s" + hx("2"), "s" + hx("3")]),                                        # F11 repaired
         ("", [hx("") + "~rich/R;1;" + hx("b") + ";t" + hx("a&") + "!P;t" + hx("\u30a2") + "!R;0;;t" + hx("<b>\r\n") + "!Q"],
          ["s" + hx("0"), "iplain/1/t" + hx(" \t'\"]]>\U0001F600 ") + "/P;t" + hx("x") + "!Q", "irich/"]),
         ("x", [hx("\n ") + "~plain/1/t" + hx("a") + "+o+t" + hx("b") + "/P;t" + hx("ph")], ["s" + hx("0"), "iplain/0//"]),
-        ("x", [hx("") + "~plain/0/t" + hx("c") + "/"], ["s" + hx("0"), "irich/", "s" + hx("0"), "irich/P;t" + hx("p")]),   # F34: <x:is/> swallows the next cell
-        ("", [hx("") + "~plain/0/t" + hx("a_x000D_") + "/", hx("") + "~plain/0/t" + hx("_x005F_x0041_ _x12 _xZZZZ_") + "/"],
-         ["s" + hx("0"), "s" + hx("1"), "ft" + hx("1") + "&t" + hx("_x000a_")]),                               # F37
+        ("x", [hx("") + "~plain/0/t" + hx("c") + "/"], ["s" + hx("0"), "irich/", "s" + hx("0"), "irich/P;t" + hx("p")]),   # was F34: <x:is/> swallowed the next cell
+        ("", [hx("") + "~plain/0/t" + hx("a_x000D_") + "/", hx("") + "~plain/0/t" + hx("_x005F_x0041_ _x12 _xZZZZ_ _xD83D_") + "/",
+              hx("") + "~plain/0/t" + hx("a_x00") + "+c" + hx("0D_b") + "/"],
+         ["s" + hx("0"), "s" + hx("1"), "ft" + hx("1") + "&t" + hx("_x000a_"), "s" + hx("2")]),                # F37 (also across a Text/CDATA boundary)
+        # CDATA everywhere: "a]]>b" as two adjacent sections, in a plain <t>, in runs, in a phonetic run
+        # (ignored), in <v> and <f> of a formula string, empty sections, default namespace and prefix
+        ("", [hx("") + "~plain/1/c" + hx("a]]") + "+c" + hx(">b") + "/P;c" + hx("ph"),
+              hx("") + "~rich/R;0;;c" + hx(" <&> ") + "!P;c" + hx("x") + "!R;1;" + hx("b") + ";t" + hx("1") + "+c" + hx("2") + "+t" + hx("3") + "!R;0;;c",
+              hx("") + "~plain/0/c/"],
+         ["s" + hx("0"), "s" + hx("1"), "s" + hx("2"), "iplain/0/c" + hx("]]") + "+c" + hx(">") + "/",
+          "irich/R;0;;c" + hx("in") + "+c" + hx("line"), "fc" + hx('IF(A1<B1,"]]') + "+c" + hx('>","&")') + "&c" + hx("v<") + "+c+c" + hx("w")]),
+        ("main", [hx("\n") + "~rich/R;0;" + hx("i") + ";c" + hx("p&q") + "!R;0;;t" + hx("\r") + "+c" + hx("\n") + "!Q",
+                  hx("") + "~plain/0/t" + hx("u") + "+c" + hx("<![CDATA[") + "+o+t" + hx("w") + "/"],
+         ["s" + hx("0"), "s" + hx("1"), "irich/R;1;;c" + hx("  "), "ft" + hx("A1") + "+c" + hx("&B1") + "&t" + hx("x") + "+c" + hx("y")]),
     ]
     run_xlsx_batch(ctx, cases, "kx")
     ocases = [
         ["a;;cp" + "l" + hx("a") + "+T+l" + hx("b")],                                   # F35
         ["a;;cp" + "l" + hx("a") + "+B+l" + hx("b")],                                   # F36
-        ["a;;cp" + "d" + hx("a") + "+l" + hx("b")],                                     # F12 ods
+        ["a;;cp" + "d" + hx("a") + "+l" + hx("b")],                                     # was F12 ods
+        # CDATA only / text + CDATA + text / adjacent sections around "]]>" / inside a span / empty
+        ["a;;cp" + "d" + hx(" <a&b> "), "a;;cp" + "l" + hx("u") + "+d" + hx("v") + "+l" + hx("w"),
+         "a;;cp" + "d" + hx("x]]") + "+d" + hx(">y") + "!p" + "o" + hx("T1") + "+d" + hx("in span") + "+s+d" + hx("]]") + "+x+d",
+         "c;;cp" + "s" + hx("2") + "+d" + hx("\t\n") + "+s"],
         ["a;;cp" + "s" + hx("3") + "+l" + hx("a ") + "+s+l" + hx("b") + "+s" + hx("0") + "!p!p" + "l" + hx("c"),
          "c;" + hx("table:style-name") + "=" + hx("ce1") + ";a" + hx(" a&<b>\n") + "/pl" + hx("shown"),
          "a;;c", "a;;cn" + wire(ANNOT[1]) + "!pl" + hx("t")],
@@ -835,17 +1004,20 @@ def sweep_xml_chars(ctx):
         items, cells, ocells = [], [], []
         for j, s in enumerate(grp):
             m = (k + j) % 4
+            # every second group of four spells the characters as CDATA sections
+            sp = (lambda x: "+".join(kk + hx(q) for kk, q in cdata_segments(x))) if ((k + j) // 4) % 2 else (lambda x: "t" + hx(x))
             if m == 0:
-                items.append(hx("") + "~plain/1/t" + hx(s) + "/"); cells.append("s" + hx(str(len(items) - 1)))
+                items.append(hx("") + "~plain/1/" + sp(s) + "/"); cells.append("s" + hx(str(len(items) - 1)))
             elif m == 1:
                 a, b = s[:700], s[700:]
-                items.append(hx("") + "~rich/R;1;;t" + hx(a) + "!R;0;;t" + hx(b)); cells.append("s" + hx(str(len(items) - 1)))
+                items.append(hx("") + "~rich/R;1;;" + sp(a) + "!R;0;;" + sp(b)); cells.append("s" + hx(str(len(items) - 1)))
             elif m == 2:
-                cells.append("iplain/0/t" + hx(s) + "/")
+                cells.append("iplain/0/" + sp(s) + "/")
             else:
-                cells.append("ft" + hx("1") + "&t" + hx(s))
+                cells.append("f" + sp(s) + "&" + sp(s))
             if (k + j) % 2 == 0:
-                ocells.append("a;;c" + "!".join("pl" + hx(line) if line else "p" for line in s.split("\n")))
+                osp = (lambda x: "+".join(("d" if kk == "c" else "l") + hx(q) for kk, q in cdata_segments(x))) if ((k + j) // 2) % 2 else (lambda x: "l" + hx(x))
+                ocells.append("a;;c" + "!".join("p" + osp(line) if line else "p" for line in s.split("\n")))
             else:
                 ocells.append("a;;a" + hx(s) + "/")
         xcases.append(("", items, cells))
